@@ -200,6 +200,25 @@ pub fn generate(s: &mut Session, thorough: bool) -> bool {
             add(s, "bit-flip", &b);
         }
     }
+    // (iii-b) every pair of reserved bits set together (a validation that combines the
+    // reserved-bit tests of several words can cancel two of them)
+    {
+        let mut reserved: Vec<usize> = vec![31];
+        reserved.extend((16..31).map(|b| 9 * 32 + b));
+        reserved.extend((0..32).map(|b| 12 * 32 + b));
+        reserved.extend((24..32).map(|b| 13 * 32 + b));
+        reserved.extend((8..32).map(|b| 16 * 32 + b));
+        reserved.extend((8..32).map(|b| 17 * 32 + b));
+        let base = valids[0].clone();
+        for (i, &a) in reserved.iter().enumerate() {
+            for &c in reserved.iter().skip(i + 1) {
+                let mut b = base.clone();
+                b[a / 8] ^= 1 << (a % 8);
+                b[c / 8] ^= 1 << (c % 8);
+                add(s, "reserved-bit-pairs", &b);
+            }
+        }
+    }
     // (iv) all orderings and tie patterns of the four counters around a common value
     for centre in [0u32, 1, 5, 0x0FFF_FFFF, 0x1000_0000, 0xFFFF_FFFD] {
         for pat in 0..81u32 {
